@@ -18,6 +18,7 @@ import (
 	"io"
 	"os"
 	"path/filepath"
+	"strings"
 	"sync"
 	"sync/atomic"
 	"testing"
@@ -63,6 +64,7 @@ type op struct {
 	Len   int    // content length
 	Chunk int    // reader chunk size (0 = everything at once; -1 = everything at once, together with io.EOF; -7 = chunks of 7, the last one together with io.EOF)
 	At    int    // byte at which the reader fails / the context is cancelled
+	Err   string // fail: "" = an error of the harness's own; "unexpected-eof" = io.ErrUnexpectedEOF; "wrapped-eof" = an error wrapping io.EOF
 }
 
 func (o op) String() string {
@@ -70,6 +72,9 @@ func (o op) String() string {
 	case "ok":
 		return fmt.Sprintf("ok(len=%d,chunk=%d)", o.Len, o.Chunk)
 	default:
+		if o.Err != "" {
+			return fmt.Sprintf("%s(len=%d,at=%d,error=%s)", o.Kind, o.Len, o.At, o.Err)
+		}
 		return fmt.Sprintf("%s(len=%d,at=%d)", o.Kind, o.Len, o.At)
 	}
 }
@@ -91,12 +96,19 @@ type scriptedReader struct {
 	chunk       int
 	eofWithData bool // the last bytes are returned together with io.EOF (allowed by the io.Reader contract; flate/zip readers do it)
 	failAt      int  // -1 never
+	failWith    string
 	cancel      context.CancelFunc
 	cancAt      int // -1 never
 }
 
 func (r *scriptedReader) Read(p []byte) (int, error) {
 	if r.failAt >= 0 && r.pos >= r.failAt {
+		switch r.failWith {
+		case "unexpected-eof": // what a truncated compressed stream or a short body yields
+			return 0, io.ErrUnexpectedEOF
+		case "wrapped-eof":
+			return 0, fmt.Errorf("connection reset by peer: %w", io.EOF)
+		}
 		return 0, errInjected
 	}
 	if r.cancAt >= 0 && r.pos >= r.cancAt {
@@ -147,6 +159,7 @@ func alphabet(thorough bool) []op {
 	}
 	for _, at := range []int{0, 1, 64} {
 		a = append(a, op{Kind: "fail", Len: 100, At: at}, op{Kind: "cancel", Len: 100, At: at})
+		a = append(a, op{Kind: "fail", Len: 100, At: at, Err: "unexpected-eof"}, op{Kind: "fail", Len: 100, At: at, Err: "wrapped-eof"})
 	}
 	if thorough {
 		a = append(a, op{Kind: "ok", Len: 1 << 20, Chunk: 4096}, op{Kind: "fail", Len: 1 << 20, At: 1<<19 + 5}, op{Kind: "cancel", Len: 1 << 20, At: 1 << 19})
@@ -169,7 +182,7 @@ func apply(h hashing.IHash, algo string, o op, salt byte) (got, want string, err
 	}
 	switch o.Kind {
 	case "fail":
-		r.failAt = o.At
+		r.failAt, r.failWith = o.At, o.Err
 	case "cancel":
 		r.cancAt = o.At
 	}
@@ -221,11 +234,25 @@ func TestC20(t *testing.T) {
 						}
 						var hist []string
 						prev := "none"
+						type keptDigest struct{ asReturned, copyMadeThen string }
+						var kept []keptDigest
 						for k := 0; k < level; k++ {
 							o := alpha[idx[k]]
 							hist = append(hist, o.String())
 							got, want, err := apply(h, algo, o, byte(k+1))
 							transitions.Add(1)
+							// a digest handed out earlier stays what it was, whatever the hasher computes afterwards
+							if k == level-1 {
+								for _, kd := range kept {
+									if kd.asReturned != kd.copyMadeThen {
+										rep.Violation(fmt.Sprintf("earlier-digest-changed:algo=%s", algo), violation{algo, append([]string(nil), hist...), kd.asReturned, kd.copyMadeThen, "a digest returned by an earlier calculation reads differently after a later calculation on the same hasher"})
+										break
+									}
+								}
+							}
+							if o.Kind == "ok" && err == nil {
+								kept = append(kept, keptDigest{got, strings.Clone(got)})
+							}
 							switch o.Kind {
 							case "ok":
 								if k == level-1 { // only the last step is new; earlier ones were checked in the parent state
@@ -240,7 +267,7 @@ func TestC20(t *testing.T) {
 								}
 							default:
 								if k == level-1 && err == nil {
-									rep.Violation(fmt.Sprintf("error-swallowed:algo=%s:kind=%s", algo, o.Kind), violation{algo, hist, got, "", "a failing / cancelled calculation returned no error"})
+									rep.Violation(fmt.Sprintf("error-swallowed:algo=%s:kind=%s%s", algo, o.Kind, map[bool]string{true: ":error=" + o.Err, false: ""}[o.Err != ""]), violation{algo, hist, got, "", "a failing / cancelled calculation returned no error"})
 								}
 							}
 							prev = o.Kind
